@@ -44,4 +44,9 @@ def main(argv=None) -> int:
 
 
 if __name__ == "__main__":
+    import signal
+    try:
+        signal.signal(signal.SIGPIPE, signal.SIG_DFL)
+    except (AttributeError, ValueError):
+        pass
     sys.exit(main())
